@@ -1,4 +1,5 @@
-use std::fmt;
+use std::cell::Cell;
+use std::{fmt, mem};
 
 use super::{Directory, Entry, Resources};
 
@@ -64,13 +65,19 @@ impl<'a, 'd> TreeFmt<'a, 'd> {
 	}
 
 	fn draw<F: fmt::Write>(&self, f: &mut F) -> fmt::Result {
+		// No more directories are drawn than a well formed tree can possibly have
+		let budget = self.dir.resources().section.len() / mem::size_of::<crate::image::IMAGE_RESOURCE_DIRECTORY>();
+		self.draw_(f, &Cell::new(budget))
+	}
+	fn draw_<F: fmt::Write>(&self, f: &mut F, budget: &Cell<usize>) -> fmt::Result {
 		// Encode if root in depth
 		let (root, depth) = if self.depth == !0 { (true, 0) } else { (false, self.depth) };
 
 		// Quiet failsafe, unlikely to happen
-		if depth >= 32 {
+		if depth >= 32 || budget.get() == 0 {
 			return Ok(());
 		}
+		budget.set(budget.get() - 1);
 
 		let mut entries = self.dir.entries();
 		while let Some(e) = entries.next() {
@@ -101,7 +108,7 @@ impl<'a, 'd> TreeFmt<'a, 'd> {
 					depth: depth + 1,
 					margin: self.margin | (tail as u32) << depth,
 				}
-				.draw(f)?;
+				.draw_(f, budget)?;
 			}
 		}
 		Ok(())
